@@ -16,6 +16,12 @@ SelsOf(dims) == {sel \in [1..Len(dims) -> UNION {Sel1D(dims[k]) : k \in 1..Len(d
 Laws == c.dims \in LawShapes =>
           /\ FullLaw(c.dims)
           /\ \A sel \in SelsOf(c.dims) : CountLaw(c.dims, sel) /\ InBoundsLaw(c.dims, sel) /\ IncreasingLaw(c.dims, sel)
+\* chunked shapes: the chunks a partial read visits (Touched*) cover the selection and are no more than its elements
+ChunkLaws == (c.dims \in LawShapes /\ c.chunk # <<>>) =>
+               \A sel \in SelsOf(c.dims) : /\ TouchedCoverLaw(c.dims, c.chunk, sel) /\ TouchedBoundLaw(c.dims, c.chunk, sel)
+                                            /\ TouchedInBBoxLaw(c.dims, c.chunk, sel)
+\* what enumerating the bounding box would need (the pinned code): refuted
+BBoxLaws == (c.dims \in LawShapes /\ c.chunk # <<>>) => \A sel \in SelsOf(c.dims) : BBoxBoundLaw(c.dims, c.chunk, sel)
 Emit == PrintT(<<"CASE", ToJson([cfg |-> [dims |-> c.dims, chunk |-> c.chunk],
                                   perdim |-> [k \in 1..Len(c.dims) |-> SetToSeq(Sel1D(c.dims[k]))]])>>)
 =============================================================================
